@@ -127,7 +127,14 @@ def hazard_rule(ctx, prog, chk):
     from .. import hazard
     hz = hazard.Hazards(ctx, prog)
     nfn = nacc = 0
-    for name, usub, dname, sname_ in INPLACE_CORES:
+    cores = list(INPLACE_CORES)
+    listed = {(n, u) for n, u, _d, _s in cores}
+    # every other function of the stream-cipher units with a (c, m) pair of byte pointers is a documented in-place XOR as well
+    for f in sorted(prog.functions(), key=lambda f: (f.unit, f.name)):
+        if f.unit.startswith("crypto_stream/") and f.param_index("c") is not None and f.param_index("m") is not None and \
+                not any(f.name == n and u in f.unit for n, u in listed):
+            cores.append((f.name, f.unit, "c", "m"))
+    for name, usub, dname, sname_ in cores:
       for fn in [f for f in prog.functions() if f.name == name and usub in f.unit and not f.decl]:
           dst, src = fn.param_index(dname), fn.param_index(sname_)
           if dst is None or src is None:
@@ -152,4 +159,5 @@ def hazard_rule(ctx, prog, chk):
 
 
 def _base(fn, base):
-    return " + ".join("%s%s" % ("" if s == 1 else "%d*" % s, fn.insts[v].get("name", "v%d" % v)) for v, s in sorted(base)) or "0"
+    return " + ".join("%s%s" % ("" if s == 1 else "%d*" % s, ("pos(+%d per round)" % v[2]) if isinstance(v, tuple) else
+                                fn.insts[v].get("name", "v%d" % v)) for v, s in sorted(base, key=str)) or "0"
